@@ -77,7 +77,7 @@ def main():
             print(prop, k, 'confirmed' if confirmed else 'NOT CONFIRMED %r' % res, '|',
                   ' '.join('%s:%s' % (r['property'], 'caught' if r['caught'] else 'MISSED rc=%d' % r['rc']) for r in runs))
             if confirmed:
-                dst = os.path.join(HERE, 'seeded', '%s-%s' % (prop, k))
+                dst = os.path.join(HERE, 'seeded', '%s-%s%s' % (prop, os.environ.get('SEED_TAG', ''), k))
                 os.makedirs(dst, exist_ok=True)
                 shutil.copy(patch, os.path.join(dst, 'patch.diff'))
                 shutil.copy(demo, os.path.join(dst, 'demo.py'))
